@@ -362,6 +362,28 @@ func runTier(p *Prop, tier string) int {
 			}
 		}
 	}
+	// harness trouble that made cases be discarded: show what it was
+	trouble := map[string]int{}
+	for _, j := range jobs {
+		for _, l := range strings.Split(j.out.String(), "\n") {
+			if i := strings.Index(l, "harness trouble (case discarded): "); i >= 0 {
+				m := l[i+len("harness trouble (case discarded): "):]
+				if len(m) > 200 {
+					m = m[:200]
+				}
+				trouble[m]++
+			}
+		}
+	}
+	if len(trouble) > 0 {
+		n := 0
+		for m, k := range trouble {
+			if n < 4 {
+				fmt.Printf("NOTE: %d case(s) discarded for harness trouble: %s\n", k, m)
+			}
+			n++
+		}
+	}
 	// replays written by failing properties
 	rfiles, _ := filepath.Glob(filepath.Join(work, "replays", "*.json"))
 	sort.Strings(rfiles)
